@@ -127,9 +127,11 @@ def vtext_of(v: int) -> str:
     return hex(v) if v > 9 else str(v)
 
 
-def judge(res: Res, supported: set[str], m: str, shape: str, suffix: str, v: int | None, stmt: str, src: str, key: str | None, count_distinct: bool) -> None:
+def judge(res: Res, supported: set[str], m: str, shape: str, suffix: str, v: int | None, stmt: str, src: str, key: str | None, count_distinct: bool, files: dict | None = None) -> None:
     isa_shape = SHAPE_BY_NAME[shape][2]
     wit = {"m": m, "shape": shape, "suffix": suffix, "value": v, "stmt": stmt, "src": src}
+    if files:
+        wit["files"] = files
     if shape == "dir" and m in UNJUDGED_PLAIN:
         res.evals += 1
         res.count("unjudged_branch_plain")
@@ -144,7 +146,7 @@ def judge(res: Res, supported: set[str], m: str, shape: str, suffix: str, v: int
         exp = isa.encode(m, "imp", None, None)
     elif isa_shape is not None and width is not None:
         exp = isa.encode(m, isa_shape, width, v)
-    r = assemble(src)
+    r = assemble(src, files=files)
     res.evals += 1
     must_accept = key is not None and key in supported
     if r.ok:
@@ -283,6 +285,17 @@ def run_enum(shard: dict, res: Res) -> None:
                     stmt = render(m, shape, "", name, "lower")
                     judge(res, supported, m, shape, "", v, stmt, f"*=0x008000\n{name} := {v:#x}\n{stmt}\n", key_of(m, shape, "", v), True)
                     res.count("register_like_name_cases")
+        # the instruction stands in an included file; every case writes a file of the same name with its own statement
+        for shape, tpl, isa_shape in SHAPES:
+            if isa_shape is None:
+                continue
+            for suffix, v in (("", 0x12), ("", 0x1234), ("w", 0x34), ("", 0x123456)):
+                if isa_shape == "imp" and (suffix or v != 0x12):
+                    continue
+                stmt = render(m, shape, suffix, "" if isa_shape == "imp" else vtext_of(v), "lower")
+                judge(res, supported, m, shape, suffix, None if isa_shape == "imp" else v, stmt, "*=0x008000\n.include 'part.s'\n",
+                      key_of(m, shape, suffix, None if isa_shape == "imp" else v), True, files={"part.s": stmt + "\n"})
+                res.count("included_file_cases")
         # the statement is the last thing in the source: no final newline, blanks, a comment, a one-character operand
         for shape, tpl, isa_shape in SHAPES:
             if isa_shape is None:
@@ -407,5 +420,5 @@ def replay(w: dict) -> Res:
             res.violate("context-dependent-encoding", f"`{w['stmt']}` in context assembled to {got.hex()}", w)
         return res
     key = key_of(w["m"], w["shape"], w["suffix"], w["value"]) if "PRELUDE" not in w and ":=" not in w["src"] else None
-    judge(res, load_supported(), w["m"], w["shape"], w["suffix"], w["value"], w["stmt"], w["src"], key, True)
+    judge(res, load_supported(), w["m"], w["shape"], w["suffix"], w["value"], w["stmt"], w["src"], key, True, files=w.get("files"))
     return res
